@@ -95,6 +95,9 @@ def cases(tier, seed, i, n):
                             styles = ['sync', 'full', 'sync_multi', 'bfinal']
                             if snct:
                                 styles += ['stored', 'sync_level1']
+                            else:
+                                # a peer that ends its DEFLATE streams with BFINAL=1 blocks but keeps its window
+                                styles += ['bfinal_keep', 'mixed_keep']
                             for st in (styles if tier == 'thorough' else [rnd.choice(styles), rnd.choice(styles)]):
                                 yield dict(kind='s2c', cfg=cfg, hseed=rnd.randrange(1 << 30), style=st,
                                            mixed=rnd.random() < 0.5)
@@ -223,6 +226,7 @@ def run_s2c(case, acc):
     expected = []
     style = case['style']
     used = set()
+    mstyles = []
     for m in msgs:
         kind = 'binary'
         try:
@@ -232,6 +236,7 @@ def run_s2c(case, acc):
         except UnicodeDecodeError:
             pass
         op = 1 if kind == 'text' else 2
+        cur = None
         if case.get('mixed') and rnd.random() < 0.25:
             # uncompressed message on the compressed connection
             body += refws.enc_frame(op, m)
@@ -239,7 +244,10 @@ def run_s2c(case, acc):
             st = style
             if st == 'mixed':
                 st = rnd.choice(('sync', 'full', 'sync_multi', 'bfinal') + (('stored', 'sync_level1') if cfg['snct'] else ()))
+            if st == 'mixed_keep':
+                st = rnd.choice(('sync', 'bfinal_keep', 'bfinal_keep', 'bfinal_mid', 'sync_multi'))
             used.add(st)
+            cur = st
             pl = peer.compress(m, st)
             ncut = rnd.choice((0, 0, 1, 2, 4))
             cuts = sorted(rnd.choice((0, len(pl), rnd.randint(0, len(pl)))) for _ in range(ncut))
@@ -251,6 +259,9 @@ def run_s2c(case, acc):
                     body += refws.enc_frame(rnd.choice((9, 10)), b'ctl')
                     expected.append(('ctl',))
         expected.append((kind, m.decode('utf-8') if kind == 'text' else m))
+        while len(mstyles) < len(expected) - 1:
+            mstyles.append(None)
+        mstyles.append(cur)
     hs = dict(extra=[('Sec-WebSocket-Extensions', ext_header(cfg['sb'], cfg['cb'], cfg['snct'], cfg['cnct'], cfg['sp']))])
     seg = rnd.choice((None, 'rand', 'rand'))
     cuts = None
@@ -293,7 +304,7 @@ def run_s2c(case, acc):
         if key is None and len(got) != len(expected):
             key = 'extra-events'
     if key:
-        if 'bfinal' in used:
+        if any(u.startswith('bfinal') for u in used):
             key += ':after-bfinal-block'
         acc.violation(key + ':s2c', 'C06 %s %s style=%s' % (key, cfgkey(cfg), style), case, detail)
     else:
